@@ -3,3 +3,4 @@ pub mod envref;
 pub mod layermodel;
 pub mod report;
 pub mod snapshot;
+pub mod vbscript;
